@@ -286,14 +286,29 @@ def _both_engines(data, kw):
     import numpy as np
     hc, rc = _run_histogram(data, kw, "c")
     hp, rp = _run_histogram(data, kw, "py")
-    return dict(hist=hc, rev=rc, same=bool(np.array_equal(hc, hp) and np.array_equal(rc, rp) and hc.dtype == hp.dtype))
+    # the counts alone (no reverse indices requested), from both engines and through Binner.dohist
+    import esutil.stat.util as u
+    plain = []
+    saved = u.have_chist
+    try:
+        for eng in (True, False):
+            u.have_chist = eng
+            plain.append(np.array(u.histogram(data, **kw)))
+            b = u.Binner(np.asarray(data))
+            b.dohist(**kw)
+            plain.append(np.array(b["hist"]))
+    finally:
+        u.have_chist = saved
+    return dict(hist=hc, rev=rc, same=bool(np.array_equal(hc, hp) and np.array_equal(rc, rp) and hc.dtype == hp.dtype),
+                plain_same=bool(all(np.array_equal(p, hc) for p in plain)))
 
 
 contract("esutil.stat.util.histogram#statement", params={}, assumed=True, runtime_name="esutil.stat.util.histogram",
          why_assumed="bounded run-time stand-in for the composition histogram -> Binner -> engine (the engines and the "
                      "sort/limit selection are proved separately)",
          rt_ensures={"counts-and-reverse-indices-partition-the-counted-data": "hist_statement(data, kw, result['hist'], result['rev'])",
-                     "engines-identical": "result['same']"},
+                     "engines-identical": "result['same']",
+                     "counts-without-reverse-indices-are-the-same-counts (both engines, histogram and Binner.dohist)": "result['plain_same']"},
          raises=[("ValueError", "no_data", "iff")],
          props=["C05"])
 
